@@ -338,5 +338,3 @@ Proof.
     apply rsum_ext. intros k Hk. rewrite Z2Nat.id by assumption. reflexivity.
 Qed.
 
-Print Assumptions convolve_getz.
-Print Assumptions cos_period_Z.
